@@ -107,6 +107,13 @@ struct SockOutcome {
     eof: bool,
     dump: Vec<(Vec<u8>, Vec<u8>, u32)>,
     panics: u64,
+    /// what a fresh connection opened afterwards received for one noop
+    follow: Vec<u8>,
+}
+
+fn follow_ok(f: &[u8]) -> bool {
+    let (r, res) = wire::split_responses(f);
+    res == 0 && r.len() == 1 && r[0].opcode == op::NOOP && r[0].status == 0 && r[0].opaque == 0xfeed_0002
 }
 
 fn run_socket(chunks: &[&[u8]]) -> Result<SockOutcome, String> {
@@ -132,7 +139,16 @@ fn run_socket(chunks: &[&[u8]]) -> Result<SockOutcome, String> {
     c.shutdown_write(&w);
     w.settle();
     c.pump();
+    // the next connection to the same server starts from its own bytes only
+    let follow = match w.connect() {
+        Ok(mut c2) => {
+            let _ = c2.step(&w, &Req::bare(op::NOOP).opaque(0xfeed_0002).bytes());
+            c2.got.clone()
+        }
+        Err(e) => e.into_bytes(),
+    };
     Ok(SockOutcome {
+        follow,
         received: c.got.clone(),
         eof: c.eof,
         dump: w.dump().into_iter().map(|d| (d.key, d.value, d.flags)).collect(),
@@ -289,6 +305,10 @@ pub fn check(tier: Tier, threads: usize) -> CheckOutcome {
     }
     let sock_results = par_map(&sjobs, threads, |_, job| -> Result<_, String> {
         let base = run_socket(&[&job.bytes])?;
+        if !follow_ok(&base.follow) {
+            // bytes of this stream reached another connection: everything else is unreliable
+            return Ok((1, 1, base.clone(), Some((vec![usize::MAX], base))));
+        }
         let again = run_socket(&[&job.bytes])?;
         if base != again {
             return Err(format!("stream {}: two unsegmented runs differ (nondeterminism not captured)", job.name));
@@ -349,6 +369,18 @@ pub fn check(tier: Tier, threads: usize) -> CheckOutcome {
                 if base.panics > 0 {
                     // C10's clause; counted as foreign here
                 }
+                if let Some((_, o)) = bad.as_ref().filter(|(cuts, _)| cuts == &vec![usize::MAX]) {
+                    add(
+                        "next-connection|disturbed".to_string(),
+                        format!(
+                            "stream {}: a fresh connection opened afterwards sent one noop and received {}",
+                            job.name,
+                            describe_resp(&o.follow)
+                        ),
+                        json!({"engine": "c09", "part": "socket-segmentation", "stream": job.name, "bytes": wire::hex_full(&job.bytes), "cuts": []}),
+                    );
+                    continue;
+                }
                 if let Some((cuts, o)) = bad {
                     add(
                         format!("socket-segmentation|{}", job.name),
@@ -393,6 +425,10 @@ pub fn check(tier: Tier, threads: usize) -> CheckOutcome {
             }
         }
     }
+    // runs that differ from each other are explained by a leak between connections once one was seen
+    if found.contains_key("next-connection|disturbed") && mach.as_deref().map(|m| m.contains("two unsegmented runs differ")).unwrap_or(false) {
+        mach = None;
+    }
     let evaluations = evals.load(Ordering::Relaxed) + a1;
     let violations: Vec<Violation> = found.into_values().collect();
     let samples: Vec<serde_json::Value> = sjobs
@@ -435,6 +471,9 @@ pub fn replay(v: &serde_json::Value) -> Result<Option<String>, String> {
     let chunks = corpus::split(&bytes, &cuts);
     if part == "socket-segmentation" || part == "frame-boundary" {
         let base = run_socket(&[&bytes])?;
+        if !follow_ok(&base.follow) {
+            return Ok(Some(format!("a fresh connection opened after the stream received {} for one noop", describe_resp(&base.follow))));
+        }
         let seg = run_socket(&chunks)?;
         let seg2 = run_socket(&chunks)?;
         if seg != seg2 {
